@@ -107,6 +107,9 @@ def check_init(chk, crate):
 
 
 def run(chk, tier):
+    # sums are flattened completely here (no sharing of large sub-sums), which makes the comparison of the 1024 table words
+    # independent of how the implementation associates its wrapping additions; it costs about 20 s for the initialisation
+    T.RING_EXPAND_LIMIT = 10 ** 6
     crate = Crate("rand_hc")
     chk.config(crate.config)
     try:
